@@ -638,7 +638,9 @@ func Cluster(fn *ssa.Function, depth int) []*ssa.Function {
 					return
 				}
 				if cal.Pkg == nil || fn.Pkg == nil || cal.Pkg != fn.Pkg {
-					if cal.Parent() == nil {
+					// an instantiation of a generic helper of the same package has no package of its own
+					sameGeneric := cal.Pkg == nil && cal.Origin() != nil && fn.Pkg != nil && cal.Origin().Pkg == fn.Pkg
+					if cal.Parent() == nil && !sameGeneric {
 						return
 					}
 				}
